@@ -18,6 +18,10 @@ BIN_TEXT = {"or": "||", "and": "&&", "|": "|", "&": "&", "comp.lt": "<", "comp.l
             "comp.gt": ">", "add": "+", "sub": "-", "mul": "*", "div": "/", "mod": "%", "nullCoalescing": "??", "pow": "**"}
 
 
+# every accepted spelling of an operator token (add / minus / multiply / divide have full-width aliases, ** may be written ^)
+BIN_ALIASES = {"add": ["+", "+", "+", "＋"], "sub": ["-", "-", "-", "－"], "mul": ["*", "*", "*", "＊"], "div": ["/", "/", "/", "／"], "pow": ["**", "**", "^"]}
+
+
 def hx(s):
     b = s.encode("utf-8")
     return b.hex() if b else "-"
@@ -101,9 +105,9 @@ class Printer:
         if k == "asg":
             return n[1] + self.sp() + "=" + self.sp() + self.p(n[2], 0)
         if k == "neg":
-            return "-" + self.p(n[1], 12)
+            return self.r.choice(BIN_ALIASES["sub"]) + self.p(n[1], 12)
         if k == "pos":
-            return "+" + self.p(n[1], 12)
+            return self.r.choice(BIN_ALIASES["add"]) + self.p(n[1], 12)
         if k in ("bin", "and", "or"):
             op = n[1] if k == "bin" else k
             a, b = (n[2], n[3]) if k == "bin" else (n[1], n[2])
@@ -114,10 +118,10 @@ class Printer:
             else:
                 left = self.p(a, L)
                 right = self.p(b, L + 1)
-            t = BIN_TEXT[op]
+            t = self.r.choice(BIN_ALIASES[op]) if op in BIN_ALIASES else BIN_TEXT[op]
             # "a - -b" / "a + +b" need the blank; "**" followed by unary minus is fine
             gap2 = self.sp()
-            if right[:1] in "+-" and t[-1] in "+-":
+            if right[:1] in "+-＋－" and t[-1] in "+-＋－":
                 gap2 = " "
             return left + self.sp() + t + gap2 + right
         if k == "tern":
